@@ -137,6 +137,10 @@ def fold(chk, reports, crashes, what, devmap, replay_meta):
         for s in r.get("samples") or []:
             chk.sample({"module": what, "path": s})
     for c in crashes:
+        if c["rc"] == 5 and "WATCHDOG memory" in (c.get("stderr") or ""):
+            # the walker process itself (graph + journal + the engine's heap) outgrew its memory budget: a resource limit of this
+            # machinery, not an observation about the engine
+            raise Inconclusive("%s: replayer stopped by its memory watchdog: %s" % (what, c["stderr"][-200:]))
         chk.violation("%s: replayer process died rc=%s: %s" % (what, c["rc"], c["stderr"][-400:]), dict(replay_meta, **c))
     if reports and not flip:
         raise Inconclusive("%s: binding self-test failed (flipped expectation not reported)" % what)
